@@ -356,7 +356,12 @@ Returns:
                            datetime.today().strftime('%Y, %m, %d')),
           file=outfile)
     print(getattr(f, 'TIME_INTERVAL', 0), file=outfile)
-    print(f.INDEPENDENT_VARIABLE, file=outfile)
+    indepvar = f.variables[f.INDEPENDENT_VARIABLE]
+    if hasattr(indepvar, 'units'):
+        print(delim.join([f.INDEPENDENT_VARIABLE, str(indepvar.units)]),
+              file=outfile)
+    else:
+        print(f.INDEPENDENT_VARIABLE, file=outfile)
     print('%d' % len(depvarkeys), file=outfile)
     print(delim.join(['1' for k in depvarkeys]), file=outfile)
     print(delim.join([str(getattr(f.variables[k], 'missing_value', -999))
